@@ -195,6 +195,6 @@ struct BuiltRef {
 }
 
 pub fn run(a: &Args) -> Acc {
-    let n = a.n(2000, 40000);
+    let n = a.n(6000, 60000);
     par_run(a, "c04-sessions", n, |a, idx, acc| run_case(a, "c04-sessions", idx, acc))
 }
